@@ -9,6 +9,10 @@ SPEC = {
          'sinks': {'C13_commit': 'sweep_judge'}, 'n': {'quick': 400, 'thorough': 40000}},
         {'pkg': 'execute', 'src': 'harness/execute/c13_test.go', 'test': 'TestVerif_C13_exec', 'fakes': True, 'extra_libs': ['vmutate'],
          'sinks': {'C13_exec': 'sweep_judge'}, 'n': {'quick': 400, 'thorough': 40000}},
+        {'pkg': 'commit', 'src': ['harness/commit/c11_test.go', 'harness/commit/c13_test.go', 'harness/commit/c13r_test.go'], 'test': 'TestVerif_C13_commit_reader',
+         'fakes': True, 'extra_libs': ['vmutate'], 'sinks': {'C13_reader_commit': 'sweep_judge'}, 'n': {'quick': 2, 'thorough': 12}},
+        {'pkg': 'execute', 'src': ['harness/execute/c11_test.go', 'harness/execute/c13_test.go', 'harness/execute/c13r_test.go'], 'test': 'TestVerif_C13_exec_reader',
+         'fakes': True, 'extra_libs': ['vmutate'], 'sinks': {'C13_reader_exec': 'sweep_judge'}, 'n': {'quick': 2, 'thorough': 12}},
     ],
     'rule': 'exhaustive single-site mutation sweep: honest traffic of both plugins (commit: 4 scenarios select / build / build with a leader-supplied RMN bundle '
             'while RMN is disabled / wait; execute: the three phases; N=4 oracles) is serialised, every node of every JSON document (observation of one oracle, query, '
@@ -16,7 +20,7 @@ SPEC = {
             'delete, type confusion, big / odd string), and every callback that consumes the document is driven under recover() and a 3 s watchdog: ValidateObservation, '
             'then Outcome and Reports only with observations that individually passed validation, Observation / Query on mutated previous outcomes and queries, '
             'ShouldAccept / ShouldTransmit on mutated reports; plus random double-site mutations of the observation (quick 400, thorough 40 000) and a raw byte stream (truncated, random, single-byte corrupted, tiny literals) at every entry point. '
-            'One case per (document, site, mutation, callback); the observable is the termination code (returned / panicked / watchdog). The RMN controller\'s response '
+            'One case per (document, site, mutation, callback); the observable is the termination code (returned / panicked / watchdog). C13_reader_*: every answer a scripted contract reader gives while either plugin observes through the real ccipChainReader (all phases) is mutated at every JSON node in turn (reader results: nil-valued, empty, inconsistent). The RMN controller\'s response '
             'handling is swept by the C06 harness (22 observation and 6 signature corruptions, nil sub-messages, garbage bodies). non-trivial: every case; distinct by digest',
     'trusted': ['encoding/json, protobuf, math/big, hex.DecodeString, big.Int.SetString never panic on any input (library oracles)',
                 'logging calls with %v of arbitrary values do not panic',
